@@ -119,10 +119,10 @@ Proof. unfold wfb. intro H. apply andb_true_iff in H as [H _]. apply nodupb_NoDu
 
 (* Documented: "Append to tabular file columns of factors based on column
    values": one new column per factor value, 1 where the cell -- printed as
-   text -- equals the value and 0 elsewhere.  An n/a cell prints as "nan" in
-   the code, so it gets 0 for every value except the literal "nan" (the
-   documentation does not mention n/a; it never becomes n/a in a factor). *)
-Definition flag (v : str) (c : cell) : cell := if str_eqb (cell_str c) v then CNum 1 else CNum 0.
+   text -- equals the value and 0 elsewhere.  An n/a cell equals no value: it
+   gets 0 in every factor column (since fix commit 67be5b4; before it an n/a
+   cell printed as "nan" and so got 1 for the literal value "nan"). *)
+Definition flag (v : str) (c : cell) : cell := if factor_hit all_fixes v c then CNum 1 else CNum 0.
 
 Definition factor_spec (i : nat) (vs names : list str) (t : table) : table :=
   {| cols := cols t ++ names;
@@ -139,7 +139,7 @@ Lemma factor_loop_spec cn vs : forall ns idx t i,
   index_of cn (cols t) = Some i -> rect t ->
   length vs + idx <= length ns ->
   NoDup (cols t ++ firstn (length vs) (skipn idx ns)) ->
-  factor_loop cn vs (Some ns) idx t = Ok (factor_spec i vs (firstn (length vs) (skipn idx ns)) t).
+  factor_loop all_fixes cn vs (Some ns) idx t = Ok (factor_spec i vs (firstn (length vs) (skipn idx ns)) t).
 Proof.
   induction vs as [|v vs IH]; intros ns idx t i Hi Hrect Hlen Hnd; cbn [factor_loop length firstn].
   - unfold factor_spec. cbn [map]. rewrite app_nil_r. destruct t as [cs rs]. cbn [cols rows] in *.
@@ -151,7 +151,7 @@ Proof.
     { apply mem_str_false. intro Hin. apply NoDup_remove_2 in Hnd. apply Hnd. apply in_or_app. left. exact Hin. }
     unfold set_col at 1. rewrite (index_of_none _ _ Hfresh).
     unfold col_cells. rewrite zip_with_map_r. cbv beta.
-    change (fun a : list cell => a ++ [if str_eqb (cell_str (get_cell i a)) v then CNum 1 else CNum 0])
+    change (fun a : list cell => a ++ [if factor_hit all_fixes v (get_cell i a) then CNum 1 else CNum 0])
       with (fun a : list cell => a ++ [flag v (get_cell i a)]).
     set (t1 := {| cols := cols t ++ [n0]; rows := map (fun a => a ++ [flag v (get_cell i a)]) (rows t) |}).
     assert (Hrect1 : rect t1).
@@ -237,12 +237,24 @@ Proof.
   unfold get_cell at 1. apply nth_error_nth. exact (map_nth_error (fun v0 => flag v0 (get_cell i r)) k vs Hv).
 Qed.
 
-(* an n/a cell is flagged 0 for every value other than the text "nan" *)
-Lemma flag_na v : v <> s_nan -> flag v CNa = CNum 0.
+(* an n/a cell is flagged 0 for EVERY factor value (the code as it is, since
+   fix commit 67be5b4) *)
+Lemma flag_na v : flag v CNa = CNum 0.
+Proof. reflexivity. Qed.
+
+(* a present cell is flagged iff its text equals the value *)
+Lemma flag_present v c : c <> CNa -> flag v c = if str_eqb (cell_str c) v then CNum 1 else CNum 0.
+Proof. intro H. unfold flag, factor_hit. destruct c; [reflexivity | reflexivity | congruence]. Qed.
+
+(* RECORD, behaviour before fix commit 67be5b4 (C17-F10): the factor value
+   "nan" -- and only that value -- also hit every n/a cell *)
+Lemma factor_hit_na_before_67be5b4 v : factor_hit no_fixes v CNa = true <-> v = s_nan.
 Proof.
-  intro H. unfold flag. cbn [cell_str]. destruct (str_eqb s_nan v) eqn:E; [|reflexivity].
-  apply str_eqb_spec in E. congruence.
+  cbn [factor_hit no_fixes fx_nan cell_str]. split; intro H.
+  - apply str_eqb_spec in H. congruence.
+  - subst. apply str_eqb_refl.
 Qed.
+
 
 (* ------------------------------------------------------------ split_rows *)
 
